@@ -364,6 +364,16 @@ func (f *Func) reachTarget(
 				skip = true
 				argMap[graph.VertexID(out)] = v.Value
 			}
+
+		case *valueVertex:
+			// A named value we already have (given directly as an input
+			// or already produced) is always used as-is. Without this, a
+			// conversion from another same-named value can be cheaper than
+			// the exact match because of the matching name discount.
+			if v.Value.IsValid() {
+				skip = true
+				argMap[graph.VertexID(out)] = v.Value
+			}
 		}
 
 		// If we're skipping because we have this value already there is
